@@ -780,7 +780,7 @@ func extractOfValue(v ssa.Value, idx int) ssa.Value {
 // ---------- SIB-cachekeys ----------
 
 func ruleSIBcachekeys(w *World, r *Report) {
-	r.Doc("SIB-cachekeys", "every metadata key a cache reader (checkCache, handleCacheInvalidate) looks up is written by saveToCache with exactly the dynamic type the reader asserts, and that type survives the JSON round trip of the journal (string, float64, bool)", 3)
+	r.Doc("SIB-cachekeys", "every metadata key a cache reader (checkCache, handleCacheInvalidate) looks up is written by saveToCache with exactly the dynamic type the reader asserts, and that type survives the JSON round trip of the journal (string, float64, bool)", 2)
 	wfi := w.Func(proxyPkg, "AIProxy.saveToCache")
 	if wfi == nil {
 		r.Und("SIB-cachekeys", "anchor:AIProxy.saveToCache", "", "anchor lost")
